@@ -170,11 +170,20 @@ def check(F, rep, tier):
     # ---- R17.5 source order: bumped_timestamp, else last_timestamp ----------------------------------------
     rv = F.fn("crate::version::zerv::components::Var::resolve_value")
     if rep.anchor("R17.5", "Var::resolve_value", rv):
-        sites = [(bi, t) for bi, t in rv.calls() if (mir.callee(t) or "").endswith("timestamp::resolve_timestamp")]
+        sites = [(bi, t, t[2][1]) for bi, t in rv.calls() if (mir.callee(t) or "").endswith("timestamp::resolve_timestamp")]
+        # `timestamp.and_then(|ts| resolve_timestamp(pattern, ts))`: the instant is the receiver of the adaptor that owns the closure
+        for c in mir.closures_in(F, rv):
+            for b2, t2 in c.calls():
+                if not (mir.callee(t2) or "").endswith("timestamp::resolve_timestamp"): continue
+                if not all(o.kind == "param" and o.data >= 2 for o in mir.trace_op(c, t2[2][1], transparent=())): continue
+                for b3, t3 in rv.calls():
+                    if any((mir.callee(t3) or "").endswith(x) for x in ("Option::<T>::and_then", "Option::<T>::map")) and len(t3[2]) > 1 and \
+                       any(o.kind == "agg" and mir.rv_at(o.fn, *o.data)[1].get("path") == c.path for o in mir.trace_op(rv, t3[2][1], transparent=())):
+                        sites.append((b3, t3, t3[2][0]))
         rep.floor("R17.5", "resolve_timestamp calls in Var::resolve_value", len(sites), 1)
-        for bi, t in sites:
+        for bi, t, ts_op in sites:
             order = None
-            for o in mir.trace_op(rv, t[2][1], transparent=()):
+            for o in mir.trace_op(rv, ts_op, transparent=()):
                 # value of `ts` in `if let Some(ts) = timestamp`
                 if o.kind == "call":
                     t2 = rv.blocks[o.data]["t"]; c2 = mir.callee(t2) or ""
@@ -187,7 +196,7 @@ def check(F, rep, tier):
                                 b += [str(u.data) for u in mir.trace_place(cl, [0]) if u.kind == "upvar"] + [y.fields()[-1] for y in mir.trace_place(cl, [0]) if y.fields()]
                             elif x.fields(): b.append(x.fields()[-1])
                         order = (a, b)
-            raw = mir.trace_op(rv, t[2][1], transparent=())
+            raw = mir.trace_op(rv, ts_op, transparent=())
             arith = [o for o in raw if o.kind == "rv" and mir.rv_at(rv, *o.data)[0] in ("bin", "un", "cast")]
             if arith:
                 rep.bad("R17.5", "timestamp-rescaled", "the timestamp handed to resolve_timestamp is computed (%s) rather than the stored Unix timestamp: instants in some range would be shifted" % [mir.rv_at(rv, *o.data)[1] for o in arith], "%s bb%d" % (rv.where(), bi))
